@@ -250,3 +250,83 @@ Example dbc_example :
   /\ length (dbc_write sch true recs) = (20 + 3 * 10 + 4)%nat
   /\ lookup_sorted (sort_keys [(7, 0); (9, 1); (8, 2)]) 8 = Some 2.
 Proof. vm_compute. repeat split. Qed.
+
+(* ---- the whole file ------------------------------------------------------------------------------------ *)
+Lemma write_record_length sch a r :
+  fits (flat sch) r = true -> (forall s, In s (strings_of_record r) -> offset_of a s < pow256 4) ->
+  length (write_record (lay sch) a r) = lay_size (lay sch).
+Proof. intros F H. unfold write_record, lay. apply enc_length. apply fits_wt; assumption. Qed.
+
+Lemma records_length sch a recs :
+  Forall (fun r => fits (flat sch) r = true) recs ->
+  (forall s, In s (strings_of recs) -> offset_of a s < pow256 4) ->
+  length (concat (map (write_record (lay sch) a) recs)) = (length recs * lay_size (lay sch))%nat.
+Proof.
+  induction recs as [|r rs IH]; intros F H; cbn [map concat length]; [reflexivity|].
+  inversion F; subst. rewrite app_length.
+  rewrite write_record_length; [|assumption|intros s I; apply H; cbn [strings_of flat_map]; apply in_or_app; left; exact I].
+  rewrite IH; [lia|assumption|intros s I; apply H; cbn [strings_of flat_map]; apply in_or_app; right; exact I].
+Qed.
+
+(* a recorded offset lies inside the block *)
+Lemma offset_in_block st s o : Good st -> assoc_find (snd st) s = Some o -> o < lenN (fst st).
+Proof.
+  intros G H. destruct (g_at st G s o (assoc_find_some _ _ _ H)) as [_ [rest Er]].
+  destruct (N.lt_ge_cases o (lenN (fst st))) as [L|L]; [exact L|].
+  rewrite skipn_all2 in Er by (unfold lenN in L; lia). destruct s; discriminate.
+Qed.
+
+Lemma firstn_skipn_le4 (pre : list N) v rest : length pre = 0%nat \/ True ->
+  forall k, length pre = k -> firstn 4 (skipn k (pre ++ le_bytes 4 v ++ rest)) = le_bytes 4 v.
+Proof.
+  intros _ k Hk. rewrite skipn_app, skipn_all2 by lia. replace (k - length pre)%nat with 0%nat by lia. cbn [skipn app].
+  rewrite firstn_app, firstn_all2 by (rewrite le_bytes_length; lia). rewrite le_bytes_length. cbn [Nat.sub firstn]. apply app_nil_r.
+Qed.
+
+(* parse (write t) = t for every well-formed table *)
+Theorem dbc_roundtrip sch arrays recs :
+  Forall (fun r => fits (flat sch) r = true) recs ->
+  Forall nul_free (strings_of recs) ->
+  lenN recs < pow256 4 -> field_count sch arrays < pow256 4 -> N.of_nat (lay_size (lay sch)) < pow256 4 ->
+  lenN (fst (build_block recs)) < pow256 4 ->
+  dbc_read sch (dbc_write sch arrays recs) = Some recs.
+Proof.
+  intros F Hs Hc Hf Hr Hb. unfold dbc_write, dbc_read.
+  set (st := build_block recs) in *.
+  pose proof (good_fold (strings_of recs) sb_init good_init Hs) as G. fold (build_block recs) in G. fold st in G.
+  destruct (string_block_correct recs Hs) as [_ Hget]. fold st in Hget.
+  assert (Hoff : forall s, In s (strings_of recs) -> offset_of (snd st) s < pow256 4).
+  { intros s I. destruct (fold_records (strings_of recs) sb_init s I) as [o Ho]. fold (build_block recs) in Ho. fold st in Ho.
+    unfold offset_of. rewrite Ho. pose proof (offset_in_block st s o G Ho). lia. }
+  set (R := concat (map (write_record (lay sch) (snd st)) recs)).
+  assert (LR : length R = (length recs * lay_size (lay sch))%nat) by (apply records_length; assumption).
+  (* the five header fields *)
+  set (h1 := le_bytes 4 (lenN recs)). set (h2 := le_bytes 4 (field_count sch arrays)).
+  set (h3 := le_bytes 4 (N.of_nat (lay_size (lay sch)))). set (h4 := le_bytes 4 (lenN (fst st))).
+  assert (L1 : length h1 = 4%nat) by apply le_bytes_length. assert (L2 : length h2 = 4%nat) by apply le_bytes_length.
+  assert (L3 : length h3 = 4%nat) by apply le_bytes_length. assert (L4 : length h4 = 4%nat) by apply le_bytes_length.
+  assert (Lm : length dbc_magic = 4%nat) by reflexivity.
+  set (file := dbc_magic ++ h1 ++ h2 ++ h3 ++ h4 ++ R ++ fst st).
+  assert (M : firstn 4 file = dbc_magic) by (unfold file; rewrite firstn_app, firstn_all2 by (rewrite Lm; lia); rewrite Lm; cbn [Nat.sub firstn]; apply app_nil_r).
+  rewrite M. replace (list_eqb dbc_magic dbc_magic) with true by reflexivity. cbn [negb].
+  assert (C1 : firstn 4 (skipn 4 file) = h1).
+  { unfold file. change (dbc_magic ++ h1 ++ h2 ++ h3 ++ h4 ++ R ++ fst st) with (dbc_magic ++ le_bytes 4 (lenN recs) ++ (h2 ++ h3 ++ h4 ++ R ++ fst st)).
+    apply firstn_skipn_le4; [right; exact I|exact Lm]. }
+  assert (C3 : firstn 4 (skipn 12 file) = h3).
+  { unfold file. replace (dbc_magic ++ h1 ++ h2 ++ h3 ++ h4 ++ R ++ fst st) with ((dbc_magic ++ h1 ++ h2) ++ le_bytes 4 (N.of_nat (lay_size (lay sch))) ++ (h4 ++ R ++ fst st)) by (rewrite <- !app_assoc; reflexivity).
+    apply firstn_skipn_le4; [right; exact I|rewrite !app_length; lia]. }
+  assert (C4 : firstn 4 (skipn 16 file) = h4).
+  { unfold file. replace (dbc_magic ++ h1 ++ h2 ++ h3 ++ h4 ++ R ++ fst st) with ((dbc_magic ++ h1 ++ h2 ++ h3) ++ le_bytes 4 (lenN (fst st)) ++ (R ++ fst st)) by (rewrite <- !app_assoc; reflexivity).
+    apply firstn_skipn_le4; [right; exact I|rewrite !app_length; lia]. }
+  rewrite C1, C3, C4. unfold h1, h3, h4. rewrite !le_value_le_bytes by assumption.
+  rewrite N.eqb_refl. cbn [negb].
+  assert (B : skipn 20 file = R ++ fst st).
+  { unfold file. replace (dbc_magic ++ h1 ++ h2 ++ h3 ++ h4 ++ R ++ fst st) with ((dbc_magic ++ h1 ++ h2 ++ h3 ++ h4) ++ (R ++ fst st)) by (rewrite <- !app_assoc; reflexivity).
+    rewrite skipn_app, skipn_all2 by (rewrite !app_length; lia). rewrite !app_length. replace (20 - _)%nat with 0%nat by lia. reflexivity. }
+  rewrite B.
+  assert (K : N.to_nat (lenN recs * N.of_nat (lay_size (lay sch))) = length R) by (unfold lenN; lia).
+  rewrite K. rewrite skipn_app, skipn_all, Nat.sub_diag. cbn [skipn app].
+  replace (N.to_nat (lenN (fst st))) with (length (fst st)) by (unfold lenN; lia). rewrite firstn_all.
+  replace (N.to_nat (lenN recs)) with (length recs) by (unfold lenN; lia). unfold R.
+  apply records_roundtrip; [exact F|]. intros s I. split; [apply Hget; exact I|apply Hoff; exact I].
+Qed.
